@@ -185,7 +185,7 @@ Section Gen.
 
   Definition g_items (rec : option qname -> value -> bitem) (var : xvar) (x : value) : list bitem :=
     match x with
-    | VNone => []
+    | VNone => if v_nillable var then [g_prim var VNone] else []      (* <f xsi:nil="true"/> *)
     | _ =>
         if v_is KText var then [BData (enc (v_format var) x)]
         else match v_tokens_factory var with
@@ -203,12 +203,15 @@ Section Gen.
              end
     end.
   Definition g_field (rec : option qname -> value -> bitem) (var : xvar) (x : value) : list bitem :=
-    match x with VNone => [] | _ => g_wrap var (g_items rec var x) end.
+    match x with
+    | VNone => if v_nillable var then g_wrap var (g_items rec var x) else []
+    | _ => g_wrap var (g_items rec var x)
+    end.
 
   (* the child objects one yielded field value contributes (the same in both directions) *)
   Definition occ (var : xvar) (x : value) : list value :=
     match x with
-    | VNone => []
+    | VNone => if v_nillable var then [VNone] else []
     | _ => match v_tokens_factory var with
            | Some _ => match x with
                        | VList _ [] => []
@@ -487,19 +490,19 @@ Section Gen.
   (* ---------------------------------------------------------------- next_value without sequence groups *)
   Lemma next_value_loop_plain obj (X : xvar -> value) vars : forall fuel,
     (length vars < fuel)%nat ->
-    (forall var, In var vars -> v_sequence var = None /\ (v_nillable var = false \/ X var <> VNone)
-                               /\ getattr obj (v_name var) = Ok (X var)) ->
-    next_value_loop fuel obj vars
-    = Ok (flat_map (fun var => match X var with VNone => [] | x => [(var, x)] end) vars).
+    (forall var, In var vars -> v_sequence var = None /\ getattr obj (v_name var) = Ok (X var)) ->
+    next_value_loop fuel obj vars = Ok (flat_map (fun var => emit var (X var)) vars).
   Proof.
     induction vars as [|var rest IH]; intros fuel Hf H.
     - destruct fuel; [cbn in Hf; lia|]. reflexivity.
     - destruct fuel; [cbn in Hf; lia|]. cbn [next_value_loop].
-      destruct (H var (or_introl eq_refl)) as [Hs [Hnil Hg]]. rewrite Hs, Hg. cbn [gbind].
-      rewrite IH; [|cbn in Hf; lia|intros v Hv; apply H; right; exact Hv]. cbn [gbind flat_map].
-      unfold emit. destruct Hnil as [Hnil|Hnil]; [rewrite Hnil; destruct (X var); reflexivity|].
-      destruct (X var); try reflexivity. congruence.
+      destruct (H var (or_introl eq_refl)) as [Hs Hg]. rewrite Hs, Hg. cbn [gbind].
+      rewrite IH; [|cbn in Hf; lia|intros v Hv; apply H; right; exact Hv]. reflexivity.
   Qed.
+
+  Lemma filter_flat_map' {A B} (p : B -> bool) (f : A -> list B) l :
+    filter p (flat_map f l) = flat_map (fun x => filter p (f x)) l.
+  Proof. induction l as [|x r IH]; [reflexivity|]. cbn [flat_map]. rewrite filter_app, IH. reflexivity. Qed.
 
   (* ---------------------------------------------------------------- what next_value yields *)
   Definition same_var (a b : xvar) : bool := N.eqb (v_index a) (v_index b).
@@ -516,9 +519,12 @@ Section Gen.
     exists f t l, v_factory (fst vv) = Some f /\ v_tokens_factory (fst vv) = None /\ v_wrapper_qname (fst vv) = None
                   /\ field_of fs (fst vv) = VList t l /\ In (snd vv) l.
 
+  (* a yielded value is not None, except in a nillable field (next_value: `value is not None or var.nillable`) *)
+  Definition okval (vv : xvar * value) : Prop := snd vv <> VNone \/ v_nillable (fst vv) = true.
+
   Record pairs_spec (cl : cls) (fs : list (str * value)) (m : xmeta) (ps : list (xvar * value)) : Prop := {
     ps_eq : next_value (VObj cl fs) m = Ok ps;
-    ps_src : forall vv, In vv ps -> In (fst vv) (get_element_vars m) /\ snd vv <> VNone
+    ps_src : forall vv, In vv ps -> In (fst vv) (get_element_vars m) /\ okval vv
                                      /\ (pair_whole fs vv \/ pair_part fs vv);
     ps_once : NoDup (map (fun vv => v_index (fst vv)) (filter (fun vv => once_b (fst vv)) ps));
     ps_sel : forall var, In var (get_element_vars m) -> sel var ps = occ var (field_of fs var)
@@ -530,16 +536,23 @@ Section Gen.
   Lemma same_var_refl v : same_var v v = true.
   Proof. apply N.eqb_refl. Qed.
 
-  Definition emit1 (fs : list (str * value)) (var : xvar) : list (xvar * value) :=
-    match field_of fs var with VNone => [] | x => [(var, x)] end.
+  Definition emit1 (fs : list (str * value)) (var : xvar) : list (xvar * value) := emit var (field_of fs var).
 
   Lemma sel_app var a b : sel var (a ++ b) = sel var a ++ sel var b.
   Proof. unfold sel. apply flat_map_app. Qed.
 
+  Lemma emit_cases var x : (emit var x = [] /\ x = VNone /\ v_nillable var = false)
+                           \/ (emit var x = [(var, x)] /\ (x <> VNone \/ v_nillable var = true)).
+  Proof.
+    unfold emit. destruct x; try (right; split; [reflexivity|left; discriminate]).
+    destruct (v_nillable var); [right; split; [reflexivity|right; reflexivity]|left; repeat split].
+  Qed.
+
   Lemma sel_emit_other fs var v0 : v_index v0 <> v_index var -> sel var (emit1 fs v0) = [].
   Proof.
-    intros H. unfold sel, emit1, same_var. destruct (field_of fs v0); try reflexivity; cbn [flat_map fst snd];
-      (destruct (N.eqb_spec (v_index v0) (v_index var)); [contradiction|reflexivity]).
+    intros H. unfold emit1. destruct (emit_cases v0 (field_of fs v0)) as [[E _]|[E _]]; rewrite E; [reflexivity|].
+    unfold sel, same_var. cbn [flat_map fst snd].
+    destruct (N.eqb_spec (v_index v0) (v_index var)); [contradiction|reflexivity].
   Qed.
 
   Lemma sel_emit_others fs var r : ~ In (v_index var) (map v_index r) -> sel var (flat_map (emit1 fs) r) = [].
@@ -549,37 +562,40 @@ Section Gen.
     - intros Hi. apply H. right; exact Hi.
   Qed.
 
+  Lemma sel_emit_own var x : sel var (emit var x) = occ var x.
+  Proof.
+    destruct (emit_cases var x) as [[E [-> Hn]]|[E _]]; rewrite E.
+    - unfold occ. rewrite Hn. reflexivity.
+    - unfold sel. cbn [flat_map fst snd]. rewrite same_var_refl, app_nil_r. reflexivity.
+  Qed.
+
   (* without sequence groups: every field once, in declaration order *)
   Lemma pairs_spec_plain cl fs m :
     map fst fs = map v_name (get_all_vars m) ->
     (forall var, In var (get_element_vars m) -> In var (get_all_vars m)) ->
-    (forall var, In var (get_element_vars m) ->
-       v_sequence var = None /\ (v_nillable var = false \/ field_of fs var <> VNone)) ->
+    (forall var, In var (get_element_vars m) -> v_sequence var = None) ->
     NoDup (map v_index (get_element_vars m)) ->
     pairs_spec cl fs m (flat_map (emit1 fs) (get_element_vars m)).
   Proof.
     intros Hnames Hall Hseq Hnd. constructor.
     - unfold next_value. rewrite (next_value_loop_plain (VObj cl fs) (field_of fs) (get_element_vars m)); [reflexivity|lia|].
-      intros var Hv. destruct (Hseq var Hv) as [Hs Hn]. repeat split; try assumption.
+      intros var Hv. split; [apply (Hseq var Hv)|].
       apply (getattr_field cl fs m var Hnames (Hall var Hv)).
     - intros [var x] Hin. apply in_flat_map in Hin as [var' [Hv Hx]]. unfold emit1 in Hx.
-      destruct (field_of fs var') eqn:E; cbn in Hx; try contradiction; destruct Hx as [Hx|[]]; inversion Hx; subst;
-        (split; [exact Hv|]; split; [discriminate|]; left; unfold pair_whole; cbn [fst snd]; symmetry; exact E).
+      destruct (emit_cases var' (field_of fs var')) as [[E _]|[E Hok]]; rewrite E in Hx; [destruct Hx|].
+      destruct Hx as [Hx|[]]. inversion Hx; subst. split; [exact Hv|]. split; [exact Hok|].
+      left. unfold pair_whole. reflexivity.
     - clear Hall Hseq. set (vars := get_element_vars m) in *. clearbody vars.
-      assert (E : map (fun vv : xvar * value => v_index (fst vv)) (filter (fun vv => once_b (fst vv)) (flat_map (emit1 fs) vars))
-                  = map v_index (filter (fun var => once_b var && match field_of fs var with VNone => false | _ => true end) vars)).
-      { clear. induction vars as [|var r IH]; [reflexivity|]. cbn [flat_map filter]. rewrite filter_app, map_app, IH.
-        unfold emit1. destruct (field_of fs var); cbn [filter fst]; destruct (once_b var); reflexivity. }
-      rewrite E. clear E. induction vars as [|var r IH]; [constructor|]. cbn [map] in Hnd. inversion Hnd as [|? ? Hni Hnd']; subst.
-      cbn [filter]. destruct (once_b var && _); [|apply IH; exact Hnd'].
-      cbn [map]. constructor; [|apply IH; exact Hnd'].
-      intros Hi. apply Hni. apply in_map_iff in Hi as [v [Ev Hv]]. apply filter_In in Hv as [Hv _]. rewrite <- Ev. apply in_map. exact Hv.
+      apply (nodup_flat_opt v_index (fun vv : xvar * value => v_index (fst vv))
+               (fun var => filter (fun vv => once_b (fst vv)) (emit1 fs var))) in Hnd.
+      + rewrite filter_flat_map'. exact Hnd.
+      + intros var _. unfold emit1. destruct (emit_cases var (field_of fs var)) as [[E _]|[E _]]; rewrite E;
+          [left; reflexivity|]. cbn [filter fst]. destruct (once_b var); [right; eexists; split; reflexivity|left; reflexivity].
     - intros var Hv. clear Hall Hseq. set (vars := get_element_vars m) in *. clearbody vars.
       induction vars as [|v0 r IH]; [destruct Hv|]. cbn [map] in Hnd. inversion Hnd as [|? ? Hni Hnd']; subst.
       cbn [flat_map]. rewrite sel_app.
       destruct Hv as [->|Hv].
-      + rewrite (sel_emit_others fs var r Hni), app_nil_r. unfold sel, emit1. destruct (field_of fs var); try reflexivity;
-          cbn [flat_map fst snd]; rewrite same_var_refl, app_nil_r; reflexivity.
+      + rewrite (sel_emit_others fs var r Hni), app_nil_r. apply sel_emit_own.
       + rewrite (IH Hnd' Hv). rewrite (sel_emit_other fs var v0); [reflexivity|].
         intros E. apply Hni. rewrite E. apply in_map. exact Hv.
   Qed.
@@ -1124,7 +1140,7 @@ Section Gen.
     Lemma cell_facts j var : member_ok var ->
       sel var (cell j var) ++ tailj (S j) var = tailj j var
       /\ (has j var = false -> tailj (S j) var = [])
-      /\ (forall vv, In vv (cell j var) -> fst vv = var /\ snd vv <> VNone /\ (pair_whole fs vv \/ pair_part fs vv))
+      /\ (forall vv, In vv (cell j var) -> fst vv = var /\ okval vv /\ (pair_whole fs vv \/ pair_part fs vv))
       /\ filter oncef (cell j var) = match j with O => if once_b var then emit var (X var) else [] | S _ => [] end.
     Proof.
       intros [_ [Hn [Hw [Ht Hs]]]]. unfold cell, tailj, has, seq_shape, once_b in *. rewrite Hw.
@@ -1137,7 +1153,7 @@ Section Gen.
           split; [symmetry; apply skipn_nth; exact En|]. split.
           { intros Hh. apply Nat.ltb_ge in Hh. assert ((j < length l)%nat) by (apply nth_error_Some; congruence). lia. }
           split.
-          { intros vv [<-|[]]. cbn [fst snd]. split; [reflexivity|]. split; [exact Hxn|]. right.
+          { intros vv [<-|[]]. cbn [fst snd]. split; [reflexivity|]. split; [left; exact Hxn|]. right.
             exists f, t, l. cbn [fst snd]. repeat split; try assumption. apply (nth_error_In _ _ En). }
           cbn [filter]. unfold oncef, once_b. cbn [fst]. rewrite Ef, Hw. cbn [orb]. destruct j; reflexivity.
         + apply nth_error_None in En. cbn [app]. rewrite (skipn_all2 l); [|lia]. rewrite (skipn_all2 l); [|lia].
@@ -1145,9 +1161,9 @@ Section Gen.
       - cbn [orb]. fold X in Hs.
         destruct (X var) as [|p|t l|k f0|? ? ? ? ?|? ? ?|?] eqn:Ex; try destruct Hs; destruct j as [|j'].
         all: try (split; [reflexivity|split; [reflexivity|split; [intros vv []|reflexivity]]]).
-        { unfold emit. rewrite Hn. split; [reflexivity|split; [reflexivity|split; [intros vv []|reflexivity]]]. }
+        { unfold emit, occ. rewrite Hn. split; [reflexivity|split; [reflexivity|split; [intros vv []|reflexivity]]]. }
         all: unfold emit; rewrite sel_one, app_nil_r; split; [reflexivity|]; split; [reflexivity|]; split;
-            [intros vv [<-|[]]; cbn [fst snd]; split; [reflexivity|]; split; [discriminate|]; left;
+            [intros vv [<-|[]]; cbn [fst snd]; split; [reflexivity|]; split; [left; discriminate|]; left;
              unfold pair_whole; cbn [fst snd]; symmetry; exact Ex
             |cbn [filter]; unfold oncef, once_b; cbn [fst]; rewrite Ef; reflexivity].
     Qed.
@@ -1156,7 +1172,7 @@ Section Gen.
     Lemma round_facts j g : group_ok g ->
       (forall var, In var g -> sel var (flat_map (cell j) g) ++ tailj (S j) var = tailj j var)
       /\ (existsb (has j) g = false -> forall var, In var g -> tailj (S j) var = [])
-      /\ (forall vv, In vv (flat_map (cell j) g) -> In (fst vv) g /\ snd vv <> VNone /\ (pair_whole fs vv \/ pair_part fs vv))
+      /\ (forall vv, In vv (flat_map (cell j) g) -> In (fst vv) g /\ okval vv /\ (pair_whole fs vv \/ pair_part fs vv))
       /\ filter oncef (flat_map (cell j) g)
          = match j with O => flat_map (fun var => if once_b var then emit var (X var) else []) g | S _ => [] end.
     Proof.
@@ -1176,7 +1192,7 @@ Section Gen.
     Qed.
 
     Definition seqP (g : list xvar) (j : nat) (out : list (xvar * value)) : Prop :=
-      (forall vv, In vv out -> In (fst vv) g /\ snd vv <> VNone /\ (pair_whole fs vv \/ pair_part fs vv))
+      (forall vv, In vv out -> In (fst vv) g /\ okval vv /\ (pair_whole fs vv \/ pair_part fs vv))
       /\ (forall var, In var g -> sel var out = tailj j var)
       /\ filter oncef out = match j with O => flat_map (fun var => if once_b var then emit var (X var) else []) g | S _ => [] end.
 
@@ -1210,7 +1226,7 @@ Section Gen.
 
     (* a segment of the field list and what next_value yields for it *)
     Definition Seg (vars : list xvar) (out : list (xvar * value)) : Prop :=
-      (forall vv, In vv out -> In (fst vv) vars /\ snd vv <> VNone /\ (pair_whole fs vv \/ pair_part fs vv))
+      (forall vv, In vv out -> In (fst vv) vars /\ okval vv /\ (pair_whole fs vv \/ pair_part fs vv))
       /\ (forall var, In var vars -> sel var out = occ var (X var))
       /\ NoDup (map idxf (filter oncef out)).
 
@@ -1232,18 +1248,15 @@ Section Gen.
         apply (nodup_app_apart v_index a b (fst v1) (fst v2) Hnd Ha Hb). unfold idxf in *. congruence.
     Qed.
 
-    Lemma seg_plain var : getattr obj (v_name var) = Ok (X var) -> (v_nillable var = false \/ X var <> VNone) ->
-      Seg [var] (emit var (X var)).
+    Lemma seg_plain var : getattr obj (v_name var) = Ok (X var) -> Seg [var] (emit var (X var)).
     Proof.
-      intros _ Hn. unfold emit.
-      assert (En : (if v_nillable var then [(var, VNone)] else []) = [] \/ X var <> VNone).
-      { destruct Hn as [Hn|Hn]; [left; rewrite Hn; reflexivity|right; exact Hn]. }
-      destruct (X var) eqn:Ex; [destruct En as [En|En]; [rewrite En|congruence]|..].
-      { split; [intros vv []|]. split; [|constructor]. intros v' [<-|[]]. fold X. rewrite Ex. reflexivity. }
-      all: split; [intros vv [<-|[]]; cbn [fst snd]; split; [left; reflexivity|]; split; [discriminate|]; left;
-                     unfold pair_whole; cbn [fst snd]; symmetry; exact Ex|];
-          (split; [intros v' [<-|[]]; rewrite sel_one; fold X; rewrite Ex; reflexivity|]);
-          cbn [filter]; destruct (oncef _); cbn [map]; constructor; try (intros []); constructor.
+      intros _. split; [|split].
+      - intros vv Hvv. destruct (emit_cases var (X var)) as [[E _]|[E Hok]]; rewrite E in Hvv; [destruct Hvv|].
+        destruct Hvv as [<-|[]]. cbn [fst snd]. split; [left; reflexivity|]. split; [exact Hok|].
+        left. unfold pair_whole. reflexivity.
+      - intros v' [<-|[]]. apply sel_emit_own.
+      - destruct (emit_cases var (X var)) as [[E _]|[E _]]; rewrite E; [constructor|].
+        cbn [filter]. destruct (oncef _); cbn [map]; constructor; try (intros []); constructor.
     Qed.
 
     Lemma seg_group g out : group_ok g -> seqP g 0 out -> Seg g out.
@@ -1262,7 +1275,7 @@ Section Gen.
     Lemma loop_spec : forall fuel sf vars,
       (length vars < fuel)%nat -> (length vars < sf)%nat ->
       NoDup (map v_index vars) ->
-      (forall var, In var vars -> getattr obj (v_name var) = Ok (X var) /\ (v_nillable var = false \/ X var <> VNone)) ->
+      (forall var, In var vars -> getattr obj (v_name var) = Ok (X var)) ->
       (forall var, In var vars -> v_tokens_factory var = None -> seq_shape var (X var)) ->
       seq_spans_ok sf vars = true ->
       exists out, next_value_loop fuel obj vars = Ok out /\ Seg vars out.
@@ -1283,7 +1296,7 @@ Section Gen.
           apply andb_true_iff in Hmem as [Hmem Hnl]. apply andb_true_iff in Hmem as [Hw Ht].
           apply negb_true_iff in Hnl.
           destruct (v_wrapper_qname v) eqn:Ewq; [discriminate Hw|]. destruct (v_tokens_factory v) eqn:Etf; [discriminate Ht|].
-          destruct (Hg v (in_or_app _ _ _ (or_introl Hv))) as [H1 _].
+          pose proof (Hg v (in_or_app _ _ _ (or_introl Hv))) as H1.
           unfold member_ok. rewrite Ewq, Etf. split; [exact H1|split; [exact Hnl|split; [reflexivity|split; [reflexivity|]]]].
           apply Hsh; [apply in_or_app; left; exact Hv|exact Etf]. }
         rewrite (seq_fuel_eq g (fun v Hv => proj1 (proj2 Hgok v Hv))).
@@ -1297,7 +1310,7 @@ Section Gen.
         + exact Hsp.
         + rewrite Hr2. cbn [gbind]. exists (o1 ++ o2). split; [reflexivity|].
           rewrite Evars. apply seg_app; [exact Hnd|apply seg_group; assumption|exact HS2].
-      - destruct (Hg var (or_introl eq_refl)) as [Hga Hn]. rewrite Hga. cbn [gbind].
+      - pose proof (Hg var (or_introl eq_refl)) as Hga. rewrite Hga. cbn [gbind].
         cbn [map] in Hnd.
         destruct (IH sf rest) as [o2 [Hr2 HS2]].
         + lia.
@@ -1314,7 +1327,7 @@ Section Gen.
   (* without sequence groups *)
   Lemma pairs_plain cl fs m :
     wf_class m = true -> map fst fs = map v_name (get_all_vars m) ->
-    (forall var, In var (get_element_vars m) -> v_sequence var = None /\ (v_nillable var = false \/ field_of fs var <> VNone)) ->
+    (forall var, In var (get_element_vars m) -> v_sequence var = None) ->
     pairs cl fs m = flat_map (emit1 fs) (get_element_vars m).
   Proof.
     intros Hwc Hnames Hseq. apply pairs_eq.
@@ -1326,20 +1339,15 @@ Section Gen.
   Lemma class_pairs cl fs m :
     wf_class m = true -> map fst fs = map v_name (get_all_vars m) ->
     (forall e v, In e (m_elements m) -> In v (snd e) -> v_tokens_factory v = None -> seq_shape v (field_of fs v)) ->
-    (forall e v, In e (m_elements m) -> In v (snd e) -> v_nillable v = true -> field_of fs v <> VNone) ->
     pairs_spec cl fs m (pairs cl fs m).
   Proof.
-    intros Hwc Hnames Hsh Hnn.
-    assert (Hnil : forall var, In var (get_element_vars m) -> v_nillable var = false \/ field_of fs var <> VNone).
-    { intros var Hin. destruct (wf_class_evar m var Hwc Hin) as [[_ Hi]|[_ [Hwt _]]].
-      - destruct (v_nillable var) eqn:En; [right; apply (Hnn _ var Hi (or_introl eq_refl) En)|left; reflexivity].
-      - left. apply (wf_text_nonil var Hwt). }
+    intros Hwc Hnames Hsh.
     destruct (m_text m) as [tv|] eqn:Htx.
     - (* a Text field: no sequence group *)
       assert (H : pairs_spec cl fs m (flat_map (emit1 fs) (get_element_vars m))).
       { apply pairs_spec_plain; [exact Hnames| | |apply evars_indices_nodup; exact Hwc].
         - intros var Hv. apply (in_allvars m var Hwc). right; exact Hv.
-        - intros var Hin. split; [|apply (Hnil var Hin)].
+        - intros var Hin.
           destruct (wf_class_evar m var Hwc Hin) as [[_ Hi]|[_ [Hwt _]]]; [|apply (wf_text_noseq var Hwt)].
           destruct (wf_class_inv m Hwc) as [F1 F2 F3 F4 F5 F6 F7 F8 F9 F10 F11 F12 F13].
           rewrite Htx in F11. destruct F11 as [_ Hnoe]. rewrite Hnoe in Hi. destruct Hi. }
@@ -1347,7 +1355,7 @@ Section Gen.
     - set (vars := get_element_vars m).
       destruct (loop_spec cl fs (S (length vars)) (S (length vars)) vars) as [out [Hrun [Sa [Sb Sc]]]]; try lia.
       + apply evars_indices_nodup; exact Hwc.
-      + intros var Hv. split; [|apply (Hnil var Hv)].
+      + intros var Hv.
         apply (getattr_field cl fs m var Hnames). apply (in_allvars m var Hwc). right; exact Hv.
       + intros var Hv Ht. destruct (wf_class_evar m var Hwc Hv) as [[_ Hi]|[Ht' _]]; [|congruence].
         apply (Hsh _ var Hi (or_introl eq_refl) Ht).
@@ -1363,10 +1371,7 @@ Section Gen.
     pairs_spec cl fs m (pairs cl fs m).
   Proof.
     intros Hwc Hn Hfe. apply class_pairs; try assumption.
-    - intros e v He Hv Ht. apply (fits_elem_shape rec v _ (Hfe e v He Hv) Ht).
-    - intros e v He Hv Hnl Ex. pose proof (Hfe e v He Hv) as Hf. rewrite Ex in Hf. unfold Fits.fits_elem in Hf.
-      rewrite Hnl in Hf. destruct (v_factory v), (v_tokens_factory v); try discriminate Hf.
-      destruct (v_default v); discriminate Hf.
+    intros e v He Hv Ht. apply (fits_elem_shape rec v _ (Hfe e v He Hv) Ht).
   Qed.
 
   Lemma wrap_ok var (r : gres (list wevent)) items :
@@ -1409,7 +1414,30 @@ Section Gen.
     (* the content *)
     rewrite (concatM_flat _ (fun vv => flat_map bflat (g_field (gobj n) (fst vv) (snd vv)))).
     2:{ intros [var x] Hin. cbn [fst snd].
-        destruct (ps_src _ _ _ _ Hps _ Hin) as [Hvar [Hxn Hsrc]]. cbn [fst snd] in Hvar, Hxn.
+        destruct (ps_src _ _ _ _ Hps _ Hin) as [Hvar [Hok Hsrc]]. cbn [fst snd] in Hvar. unfold okval in Hok. cbn [fst snd] in Hok.
+        assert (Hcase : x <> VNone \/ (x = VNone /\ v_nillable var = true)).
+        { destruct x; try (left; discriminate). destruct Hok as [H|H]; [congruence|right; split; [reflexivity|exact H]]. }
+        clear Hok. destruct Hcase as [Hxn|[-> Hnl]].
+        2:{ (* None in a nillable field: <f xsi:nil="true"/> *)
+            cbn [g_field]. rewrite Hnl. apply wrap_ok. cbn [g_items]. rewrite Hnl.
+            destruct (wf_class_evar m var Hwc Hvar) as [[Hwe Hine]|[_ [Hwt _]]];
+              [|rewrite (wf_text_nonil var Hwt) in Hnl; discriminate Hnl].
+            destruct (wf_elem_inv var Hwe) as [Hk [Hc _]].
+            destruct (var_common_inv var Hc) as [_ [Hmx [Hany _]]].
+            destruct (wf_elem_nil var Hwe Hnl) as [t [Htys [Hst [Hcl Htf]]]].
+            assert (Hfa0 : v_factory var = None).
+            { pose proof (Hfe _ var Hine (or_introl eq_refl)) as Hfv.
+              destruct Hsrc as [Hw|[f1 [t1 [l1 [Hf1 [_ [_ [El Hil]]]]]]]]; cbn [fst snd] in *.
+              - unfold pair_whole in Hw. cbn [fst snd] in Hw. rewrite <- Hw in Hfv.
+                unfold Fits.fits_elem in Hfv. rewrite Htf in Hfv. destruct (v_factory var); [discriminate Hfv|reflexivity].
+              - exfalso. rewrite El in Hfv. unfold Fits.fits_elem in Hfv. rewrite Hf1, Htf in Hfv.
+                apply andb_true_iff in Hfv as [_ Hfl]. rewrite forallb_forall in Hfl.
+                apply (fits_item_atomic _ var VNone (Hfl VNone Hil)). }
+            destruct f as [|f0]; [cbn [odepth] in *; lia|].
+            rewrite (run_value_single f0 var VNone Hmx Hk Htf Hfa0).
+            destruct f0 as [|f1]; [cbn [odepth] in *; lia|].
+            destruct Hk as [Hk0 Hk']. cbn [run]. rewrite Hk0.
+            rewrite (convert_element_plain var VNone WNone Hany eq_refl). cbn [flat_map]. rewrite app_nil_r, bflat_prim. reflexivity. }
         assert (Hfield : In (v_name var, field_of fs var) fs \/ field_of fs var = VNone).
         { unfold field_of. destruct (assoc (v_name var) fs) eqn:Ea; [left; apply assoc_in; exact Ea|right; reflexivity]. }
         assert (Hdx : (odepth x < odepth (VObj cl fs))%nat).
@@ -1605,8 +1633,14 @@ Section Gen.
            else if ign && opt_skip var x then []
            else [(Bind.split_qname (v_qname var), e_atoms (v_format var) x)]
     end.
+  (* None in a nillable field: <f xsi:nil="true"/> *)
+  Definition nil_attr_e (var : xvar) (x : value) : list (XmlNs.qname * list atom) :=
+    match x with
+    | VNone => if v_nillable var then [(Bind.split_qname XSI_NIL, [AText TRUE_STR])] else []
+    | _ => []
+    end.
   Definition e_prim (var : xvar) (x : value) : XmlNs.enode :=
-    EElem (Bind.split_qname (v_qname var)) [] (e_data (v_format var) x).
+    EElem (Bind.split_qname (v_qname var)) (nil_attr_e var x) (e_data (v_format var) x).
   Definition xsi_attr_e (x : option qname) : list (XmlNs.qname * list atom) :=
     match x with Some ((_ :: _) as q) => [(Bind.split_qname XSI_TYPE, [AQName (Bind.split_qname q)])] | _ => [] end.
   Definition add_xsi_e (x : option qname) (e : XmlNs.enode) : XmlNs.enode :=
@@ -1626,7 +1660,7 @@ Section Gen.
 
   Definition e_items (rec : option qname -> value -> XmlNs.enode) (var : xvar) (x : value) : list XmlNs.enode :=
     match x with
-    | VNone => []
+    | VNone => if v_nillable var then [e_prim var VNone] else []
     | _ =>
         if v_is KText var then e_data (v_format var) x
         else match v_tokens_factory var with
@@ -1644,7 +1678,10 @@ Section Gen.
              end
     end.
   Definition e_field (rec : option qname -> value -> XmlNs.enode) (var : xvar) (x : value) : list XmlNs.enode :=
-    match x with VNone => [] | _ => e_wrap var (e_items rec var x) end.
+    match x with
+    | VNone => if v_nillable var then e_wrap var (e_items rec var x) else []
+    | _ => e_wrap var (e_items rec var x)
+    end.
 
   Fixpoint eobj (n : nat) (qn : option qname) (o : value) {struct n} : XmlNs.enode :=
     match n, o with
